@@ -92,7 +92,28 @@ const (
 	// KCreateEmpty is a creation that succeeds and leaves EMPTY runtime code (init code = STOP); KCreateSuicide a constructor that self-destructs
 	KCreateEmpty   TxKind = "create-empty-code"
 	KCreateSuicide TxKind = "create-constructor-selfdestructs"
+	// KKillTwice: a gadget CALLs the funded self-destructing contract AddrSuicide twice in one tx; KKillPayKill: kill, pay it 5 wei
+	// again, kill again (ledger worlds only: the gadgets are part of LedgerContracts)
+	KKillTwice   TxKind = "kill-twice"
+	KKillPayKill TxKind = "kill-pay-kill"
 )
+
+var (
+	AddrKillTwice   = common.HexToAddress("0x00000000000000000000000000000000000c0071")
+	AddrKillPayKill = common.HexToAddress("0x00000000000000000000000000000000000c0072")
+)
+
+// RepeatKillContracts: the gadgets behind KKillTwice / KKillPayKill.
+func RepeatKillContracts() []world.Contract {
+	call := func(c *asm.Code, v uint64) *asm.Code {
+		return c.Call(asm.KCall, AddrSuicide, v, 0, 0, 0, 0, 0).Op(asm.POP)
+	}
+	return []world.Contract{
+		{Addr: AddrKillTwice, Code: call(call(asm.New(), 0), 0).Stop().Bytes()},
+		{Addr: AddrKillPayKill, Code: call(call(call(asm.New(), 0), 5), 0).Stop().Bytes(),
+			Coins: sdk.NewCoins(sdk.NewCoin(world.Denom, sdkmath.NewInt(100)))},
+	}
+}
 
 // Erc20BurnAmount / Erc20TransferAmount are the amounts moved by the two precompile kinds.
 const (
@@ -142,6 +163,8 @@ func DefaultGas(k TxKind) uint64 {
 		return 200000
 	case KOutOfGas:
 		return 30000
+	case KKillTwice, KKillPayKill:
+		return 200000
 	}
 	if mode, _, ok := k.ValueRecipient(); ok {
 		if mode == ModePay {
@@ -197,6 +220,10 @@ func BuildTx(w *world.World, s TxSpec, b *big.Int) []byte {
 		set(AddrSuicide)
 	case KSuicide2:
 		set(AddrSuicide2)
+	case KKillTwice:
+		set(AddrKillTwice)
+	case KKillPayKill:
+		set(AddrKillPayKill)
 	case KInvalid:
 		set(AddrInvalid)
 	case KCreateOK:
@@ -503,4 +530,6 @@ func RecipientContracts() []world.Contract {
 }
 
 // LedgerContracts is the gadget set of the ledger checks: StdContracts plus the value-recipient gadgets.
-func LedgerContracts() []world.Contract { return append(StdContracts(), RecipientContracts()...) }
+func LedgerContracts() []world.Contract {
+	return append(append(StdContracts(), RecipientContracts()...), RepeatKillContracts()...)
+}
